@@ -57,6 +57,9 @@ def run(ctx):
     impl, fails = cc.correspondence(ctx, cases)
     res.corr_failures += fails
     for c, o in zip(cases, impl):
+        if o is None:      # implementation raised: already reported as a correspondence failure
+            res.evaluations += 1
+            continue
         res.evaluations += 1
         parents = set(int(p) for p in c["ep"])
         fx = np.where(c["fixed"])[0]
